@@ -25,7 +25,7 @@ Directives inside an item block (one per line; a text argument may be given as
     ghost body-start TEXT | ghost before-loop N TEXT | ghost loop-start N TEXT | ghost loop-end N TEXT
     ghost loop-exit N TEXT             (None arm of a desugared `for`)
     ghost after "TOKENS" [nth K] TEXT | ghost before "TOKENS" [nth K] TEXT
-    rewrite RULE "OLD" => "NEW" [xN]   token-wise replacement, must match exactly N (default 1) times
+    rewrite RULE "OLD" => "NEW" [xN|x*] token-wise replacement, must match exactly N (default 1) times; `x*`: every occurrence, at least one
     for-desugar N [via "EXPR with {}"] R5
     break-value N VAR                  R3 for loop N: `break V` -> `{ VAR = V; break; }` (+ initial decl)
     debug-assert K => EXPR             R2: K-th debug_assert! -> assert(EXPR)
@@ -203,10 +203,11 @@ def parse_item_block(header, body_lines, tmpl_path, first_line):
                 else:
                     raise TemplateError(f"unknown ghost position {where}")
             elif word == "rewrite":
-                m = re.match(r"(\S+)\s+" + _STR + r"\s*=>\s*" + _STR + r"\s*(?:x(\d+))?\s*$", rest, re.S)
+                m = re.match(r"(\S+)\s+" + _STR + r"\s*=>\s*" + _STR + r"\s*(?:x(\d+|\*))?\s*$", rest, re.S)
                 if not m:
                     raise TemplateError("bad rewrite")
-                spec.rewrites.append((m.group(1), _unq(m.group(2)), _unq(m.group(3)), int(m.group(4) or 1)))
+                # `x*`: every occurrence (at least one) -- for outlines of a pure expression, where each occurrence means the same
+                spec.rewrites.append((m.group(1), _unq(m.group(2)), _unq(m.group(3)), -1 if m.group(4) == "*" else int(m.group(4) or 1)))
             elif word == "drop":
                 m = re.match(_STR + r"\s*(?:x(\d+))?\s*$", rest, re.S)
                 spec.drops.append((_unq(m.group(1)), int(m.group(2) or 1)))
@@ -392,8 +393,8 @@ class Splicer:
             pat = norm(old)
             sig = self.live_sig()
             hits = _find_seq(self.toks, sig, pat)
-            if len(hits) != count:
-                raise LostAnchor(f"{self.item_id}: rewrite {rule} `{old}` matched {len(hits)} times, expected {count}")
+            if (count >= 0 and len(hits) != count) or (count < 0 and not hits):
+                raise LostAnchor(f"{self.item_id}: rewrite {rule} `{old}` matched {len(hits)} times, expected {count if count >= 0 else 'at least 1'}")
             for p in hits:
                 a, b = sig[p], sig[p + len(pat) - 1]
                 for k in range(a, b + 1):
